@@ -74,18 +74,20 @@ def cleanProxys (order : List Nat) (σ : Store S M) : Store S M :=
 /-- entering `Model.with_feedback(forced)`: for every model node, the value keyed by the node
     or (for a receiver) by its sender; a receiver is clamped, any other node gets its proxy
     overwritten. -/
+def enterFbStep (net : FNet S M) (forced : Nat → Option S) (σ : Store S M) (v : Nat) : Store S M :=
+  match net.fbSender v with
+  | some s =>
+    match (forced v).orElse (fun _ => forced s) with
+    | some val => let sv := σ v; upd σ v { sv with clamp := some val }
+    | none => σ
+  | none =>
+    match forced v with
+    | some val => let sv := σ v; upd σ v { sv with proxy := some val }
+    | none => σ
+
 def enterFeedback (net : FNet S M) (order : List Nat) (forced : Nat → Option S) (σ : Store S M) :
     Store S M :=
-  order.foldl (fun σ v =>
-    match net.fbSender v with
-    | some s =>
-      match (forced v).orElse (fun _ => forced s) with
-      | some val => let sv := σ v; upd σ v { sv with clamp := some val }
-      | none => σ
-    | none =>
-      match forced v with
-      | some val => let sv := σ v; upd σ v { sv with proxy := some val }
-      | none => σ) σ
+  order.foldl (enterFbStep net forced) σ
 
 /-- leaving it with `stateful = false`: non-receivers get their previous proxy back -/
 def exitFeedback (net : FNet S M) (order : List Nat) (σ0 σ : Store S M) : Store S M :=
